@@ -777,6 +777,28 @@ class MatchFunction:
         self.fn = fn
 
 
+class _MatchReceiver(MatchFunction):
+    """Match the receiver of a method, by identity.
+
+    The receiver may define its own equality and it need not be hashable.
+    Two matchers for the same receiver are equal, so that selectors for
+    the same method of the same object are the same selector.
+    """
+
+    def __init__(self, receiver):
+        super().__init__(lambda x: x is receiver)
+        self.receiver = receiver
+
+    def __eq__(self, other):
+        return (
+            isinstance(other, _MatchReceiver)
+            and other.receiver is self.receiver
+        )
+
+    def __hash__(self):
+        return hash((_MatchReceiver, id(self.receiver)))
+
+
 def _dig(fn):
     while hasattr(fn, "__wrapped__") and not is_tooled(fn):
         fn = fn.__wrapped__
@@ -796,15 +818,11 @@ def _resolve(selector, env, cnt):
             real_fn = _dig(fn.__func__)
             selfname = inspect.getfullargspec(real_fn).args[0]
             el = el.clone(name=real_fn)
-            # The receiver is matched by identity: it may define its own
-            # equality, and it need not be hashable.
             captures.append(
                 Element(
                     name=selfname,
                     capture=selfname,
-                    value=MatchFunction(
-                        lambda x, receiver=fn.__self__: x is receiver
-                    ),
+                    value=_MatchReceiver(fn.__self__),
                 )
             )
         else:
